@@ -108,7 +108,7 @@ func validMediaType(s string) bool {
 
 var validMTs = []string{"application/vnd.test+json", "a/b", "application/vnd.oci.image.config.v1+json", "x1/y-z_0.9+q", "A/B!#$&^", mtEmpty,
 	"a/" + strings.Repeat("b", 127), strings.Repeat("t", 127) + "/s"}
-var invalidMTs = []string{"/b", "a/", "a", "a/b/c", "a b/c", "a/*", "a/b;q=1", "a/b=c", ".a/b", "a/-b", "a/" + strings.Repeat("b", 128), strings.Repeat("t", 128) + "/s", "application/vnd test", "text/plain\n", "é/x"}
+var invalidMTs = []string{"/b", "a/", "a", "a/b/c", "a b/c", "a/*", "a/b;q=1", "a/b=c", ".a/b", "a/-b", "a/" + strings.Repeat("b", 128), strings.Repeat("t", 128) + "/s", "application/vnd test", "text/plain\n", "é/x", "application/vnd.\u212aelvin", "a\u017f/b", "\u212a/x"}
 
 var createdValid = []string{"2024-02-29T12:00:00Z", "1999-12-31T23:59:59+05:30", "2030-01-01T00:00:00.123456789-07:00", "2001-09-09T01:46:40.5Z"}
 var createdInvalid = []string{"2024-02-29 12:00:00Z", "2024-13-01T00:00:00Z", "2024-01-01T00:00:00", "", "2024-01-01", "yesterday", "2024-02-30T00:00:00Z", "2024-01-01T25:00:00Z"}
